@@ -364,26 +364,31 @@ char *__wrap_if_indextoname(unsigned int ifindex, char *ifname)
 /* Interfaces only the application's own socket functions know (ares_set_socket_functions_ex):
  * the operating system (the wraps above) has never heard of them. */
 static int cfg_private_ifaces; /* the channel under test has such functions installed */
+/* private interfaces, names are case sensitive (as on Linux: enP2p1s0 and enp2p1s0 are different interfaces) */
+static const char *const cfg_priv_ifnames[] = { "vpn0", "vpn1", "enP2p1s0", "Br-LAN" };
+#define CFG_NPRIV 4
+static unsigned int cfg_priv_index(const char *ifname)
+{
+  unsigned k;
+  for (k = 0; ifname != NULL && k < CFG_NPRIV; k++) {
+    if (!strcmp(ifname, cfg_priv_ifnames[k])) {
+      return 40 + k;
+    }
+  }
+  return 0;
+}
 static unsigned int cfg_if_index(const char *ifname)
 {
-  if (cfg_private_ifaces && ifname != NULL) {
-    if (!strcmp(ifname, "vpn0")) {
-      return 40;
-    }
-    if (!strcmp(ifname, "vpn1")) {
-      return 41;
-    }
+  if (cfg_private_ifaces && cfg_priv_index(ifname)) {
+    return cfg_priv_index(ifname);
   }
   return __wrap_if_nametoindex(ifname);
 }
 static unsigned int cfg_app_if_nametoindex(const char *ifname, void *ud)
 {
   (void)ud;
-  if (ifname != NULL && !strcmp(ifname, "vpn0")) {
-    return 40;
-  }
-  if (ifname != NULL && !strcmp(ifname, "vpn1")) {
-    return 41;
+  if (cfg_priv_index(ifname)) {
+    return cfg_priv_index(ifname);
   }
   return __wrap_if_nametoindex(ifname);
 }
@@ -393,8 +398,8 @@ static const char *cfg_app_if_indextoname(unsigned int ifindex, char *buf, size_
   if (buflen < 16) {
     return NULL;
   }
-  if (ifindex == 40 || ifindex == 41) {
-    snprintf(buf, buflen, "vpn%u", ifindex - 40);
+  if (ifindex >= 40 && ifindex < 40 + CFG_NPRIV) {
+    snprintf(buf, buflen, "%s", cfg_priv_ifnames[ifindex - 40]);
     return buf;
   }
   return __wrap_if_indextoname(ifindex, buf);
@@ -662,9 +667,28 @@ static void cfg_site(void *const *pc, char *site, size_t site_len, char *full, s
   }
 }
 
+/* Gate: holds every thread other than the main one at its next allocation until the main thread opens it.  Used to
+ * place an application call inside the window in which the reload thread reads the system configuration. */
+static volatile int cfg_gate_closed;
+static volatile int cfg_gate_waiters;
+static pthread_t    cfg_gate_main;
+static void         cfg_gate_wait(void)
+{
+  if (cfg_gate_closed && !pthread_equal(pthread_self(), cfg_gate_main)) {
+    int spins = 0;
+    __atomic_add_fetch(&cfg_gate_waiters, 1, __ATOMIC_SEQ_CST);
+    while (__atomic_load_n(&cfg_gate_closed, __ATOMIC_SEQ_CST) && spins++ < 40000) {
+      usleep(100);
+    }
+    __atomic_sub_fetch(&cfg_gate_waiters, 1, __ATOMIC_SEQ_CST);
+  }
+}
+
 static void *cfg_malloc(size_t size)
 {
-  void *p = malloc(size ? size : 1);
+  void *p;
+  cfg_gate_wait();
+  p = malloc(size ? size : 1);
   if (p) {
     pthread_mutex_lock(&cfg_led_mu);
     cfg_led_add(p, size);
